@@ -320,6 +320,8 @@ func registerSnapshotIntrinsics() {
 		return ret1(IfaceV{})
 	}
 
+	intrinsics["k8s.io/apimachinery/pkg/util/json.Marshal"] = intrinsics["encoding/json.Marshal"]
+	intrinsics["k8s.io/apimachinery/pkg/util/json.Unmarshal"] = intrinsics["encoding/json.Unmarshal"]
 	intrinsics["github.com/AliyunContainerService/terway/pkg/aliyun/client.md5Hash"] = func(x *Exec, st *State, fr *Frame, fn *ssa.Function, a []Value) (Value, int) {
 		iv := a[0].(IfaceV)
 		var snap []snapLeaf
